@@ -552,12 +552,16 @@ def _matrix(repo, col):
     col.check(ok, "R-C20-roles", fi, "matrix connect: presynaptic site = local branch 0, comp 0 of the pre cell",
               "pre_cell_view.scope('local').branch(0).comp(0)", f"pre site is {why}", node=c)
     # length: unguarded stacking of a possibly empty list
+    # (the statement that stacks the sampled post indices -- a local of its own or directly inside the `.loc[...]` lookup)
     stack = next((n for n in walk_no_nested(fi.node) if isinstance(n, ast.Assign) and isinstance(n.targets[0], ast.Name)
                   and ("hstack" in unparse(n.value) or "concatenate" in unparse(n.value))), None)
     if stack is None:
         col.unk("R-C20-length", fi, "matrix connect: stacking of post indices", "not found", node=fi.node)
     else:
         lens = _case_lengths(stack.value, "")
+        if lens is None:
+            loc_ = T.find(ex.term(stack.value), lambda x: x.op == "sub" and x.args[0].op == "attr" and x.args[0].name == "loc")
+            lens = _case_lengths_t(loc_.args[1]) if loc_ is not None else None
         if lens is not None and _empty_case_returns_early(fi, ex, stack, mat):
             lens = dict(lens)
             lens[0] = 0  # the empty request returns before anything is stacked or appended
